@@ -86,8 +86,7 @@ def check(ctx):
             if call_attr(cl) == 'cancel_matching_events':
                 st = st.with_flag('cancelled')
             if call_attr(cl) == 'add_datapoint' and cl.args and isinstance(cl.args[0], ast.Constant) and cl.args[0].value == 'device_failure':
-                vals = {an_.ev(x, before, n.frame) for x in ast.walk(cl) if isinstance(x, ast.Name)}
-                st = st.with_flag('logged' if 'p0' in vals else 'logged-without-part')
+                st = st.with_flag('logged' if dv.record_carries(an_, cl, before, n.frame, 'p0') else 'logged-without-part')
         if n.kind == 'for' and '_shutdown_callbacks' in ast.unparse(n.ast.iter):
             tg = n.ast.target.id if isinstance(n.ast.target, ast.Name) else None
             for s_ in n.ast.body:
@@ -96,6 +95,7 @@ def check(ctx):
                         if an_.ev(x.args[2], after, n.frame) == 'p0' and an_.ev(x.args[1], after, n.frame) == 'T':
                             st = st.with_flag('cb')       # reporting twice is C13.5 (ran2:shutdown)
         return st
+    an.expr_hooks.append(dv.id_of_token)
     an.node_hooks.append(fail_hook)
     for sd in 'TF':
         s0 = State({'_part': 'p0', '_output': 'N', '_is_shut_down': sd, '_block_input': 'F'})
